@@ -75,6 +75,12 @@ impl Tiles {
     }
 }
 
+impl Tiles {
+    pub(crate) fn iter(&self) -> impl Iterator<Item = &Tile> {
+        self.0.iter()
+    }
+}
+
 impl Index<usize> for Tiles {
     type Output = Tile;
 
